@@ -38,3 +38,7 @@ impl SampleGenerator<f64> for ZXBeeper {
         SoundSample::new(sample, sample)
     }
 }
+
+#[cfg(kani)]
+#[path = "/verif/hooks/core/beeper.rs"]
+mod verif_hooks;
